@@ -93,6 +93,7 @@ impl UpdateLeadingTrivia for TypeInfo {
     open spec fn rest_same(&self, r: &Self) -> bool { true }
     #[verifier::external_body] fn update_leading_trivia(&self, leading_trivia: FormatTriviaType) -> (r: Self) { unimplemented!() }
 }
+pub open spec fn ctx0() -> TypeInfoContext { TypeInfoContext { within_optional: false, within_variadic: false, within_generic: false, within_table_indexer: false, contains_union: false, contains_intersect: false } }
 pub open spec fn with_optional(c: TypeInfoContext) -> TypeInfoContext { TypeInfoContext { within_optional: true, ..c } }
 pub open spec fn with_variadic(c: TypeInfoContext) -> TypeInfoContext { TypeInfoContext { within_variadic: true, ..c } }
 // format_type_info_internal: what each arm that builds a compound type owes — every `(T)` directly under it is formatted for the
@@ -158,6 +159,9 @@ def items():
         Fn(LU, "mark_contains_intersect", impl_of="TypeInfoContext", contract="ensures r == with_intersect(self),"),
         Fn(LU, "mark_within_optional", impl_of="TypeInfoContext", contract="ensures r == with_optional(self),"),
         Fn(LU, "mark_within_variadic", impl_of="TypeInfoContext", contract="ensures r == with_variadic(self),"),
+        Fn(LU, "mark_within_generic", impl_of="TypeInfoContext", contract="ensures r == (TypeInfoContext { within_generic: true, ..self }),"),
+        Fn(LU, "mark_within_table_indexer", impl_of="TypeInfoContext", contract="ensures r == (TypeInfoContext { within_table_indexer: true, ..self }),"),
+        Fn(LU, "new", impl_of="TypeInfoContext", contract=""),
         Fn("src/formatters/general.rs", "format_symbol", mode="stub"),
         Fn("src/formatters/general.rs", "format_token_reference", mode="stub"),
         Fn("src/formatters/general.rs", "format_contained_span", mode="stub"),
@@ -206,9 +210,57 @@ def items():
             Loop("while let Some(pair) = iter.next()", hang_inv("union_types(*union)", "with_union"), step="proof { k = k + 1; }", nth=0),
             Loop("while let Some(pair) = iter.next()", hang_inv("intersection_types(*intersection)", "with_intersect"), step="proof { k = k + 1; }", nth=1),
         ]),
+        # ---- the entry points: every caller outside this file comes in through one of these, with the empty context
+        Raw("""
+// a context with more marks asks for more parentheses, never fewer: what was formatted for it also satisfies what a context with fewer marks asks for.
+// The entry points are stated for the empty context — the weakest request — so that starting from a context with marks set is no violation.
+pub open spec fn ctx_le(a: TypeInfoContext, b: TypeInfoContext) -> bool {
+    (a.within_optional ==> b.within_optional) && (a.within_variadic ==> b.within_variadic) && (a.within_generic ==> b.within_generic)
+    && (a.within_table_indexer ==> b.within_table_indexer) && (a.contains_union ==> b.contains_union) && (a.contains_intersect ==> b.contains_intersect)
+}
+pub proof fn lemma_members_mono(a: Seq<TypeInfo>, c: TypeInfoContext, d: TypeInfoContext, b: Seq<TypeInfo>)
+    requires ctx_le(c, d), members_kept(a, d, b), ensures members_kept(a, c, b)
+{ assert forall|i: int| 0 <= i < a.len() implies parens_kept(#[trigger] a[i], c, b[i]) by { assert(parens_kept(a[i], d, b[i])); } }
+pub proof fn lemma_type_post_mono(t: TypeInfo, c: TypeInfoContext, d: TypeInfoContext, r: TypeInfo)
+    requires ctx_le(c, d), type_post(t, d, r), ensures type_post(t, c, r)
+{
+    match t {
+        TypeInfo::Union(u) => match r { TypeInfo::Union(ru) => { lemma_members_mono(pvals(union_types(u)), with_union(c), with_union(d), pvals(union_types(ru))); }, _ => {} },
+        TypeInfo::Intersection(u) => match r { TypeInfo::Intersection(ru) => { lemma_members_mono(pvals(intersection_types(u)), with_intersect(c), with_intersect(d), pvals(intersection_types(ru))); }, _ => {} },
+        _ => {}
+    }
+}
+pub proof fn lemma_hang_post_mono(t: TypeInfo, c: TypeInfoContext, d: TypeInfoContext, r: TypeInfo)
+    requires ctx_le(c, d), hang_post(t, d, r), ensures hang_post(t, c, r)
+{
+    match t {
+        TypeInfo::Union(u) => match r { TypeInfo::Union(ru) => { lemma_members_mono(pvals(union_types(u)), with_union(c), with_union(d), pvals(union_types(ru))); }, _ => {} },
+        TypeInfo::Intersection(u) => match r { TypeInfo::Intersection(ru) => { lemma_members_mono(pvals(intersection_types(u)), with_intersect(c), with_intersect(d), pvals(intersection_types(ru))); }, _ => {} },
+        _ => {}
+    }
+}
+""", module="formatters::luau"),
+        Fn(LU, "format_type_info", contract="ensures type_post(*type_info, ctx0(), r), //# C02.luau_entry_points", edits=[
+            Hole("format_type_info_internal(ctx, type_info, TypeInfoContext::new(), shape)", "{ let vx_context = TypeInfoContext::new(); let vx_r = format_type_info_internal(ctx, type_info, vx_context, shape); proof { lemma_type_post_mono(*type_info, ctx0(), vx_context, vx_r); } vx_r }", kind="ghost-name", why="the context and the result get names for the proof hint (monotonicity in the context); same call"),
+        ]),
+        Fn(LU, "can_hang_type", mode="stub"), Fn(LU, "should_hang_type", mode="stub"),
+        Fn(LU, "format_hangable_type_info_internal", contract="ensures hang_post(*type_info, context, r), //# C02.luau_entry_points", edits=[
+            Hole("shape.test_over_budget(&strip_trailing_trivia(&singleline_type_info))", "hole_bool()", why="Display width of the one-line candidate"),
+        ]),
+        Fn(LU, "format_hangable_type_info", contract="ensures hang_post(*type_info, ctx0(), r), //# C02.luau_entry_points", edits=[
+            Hole("format_hangable_type_info_internal(ctx, type_info, TypeInfoContext::new(), shape, hang_level)", "{ let vx_context = TypeInfoContext::new(); let vx_r = format_hangable_type_info_internal(ctx, type_info, vx_context, shape, hang_level); proof { lemma_hang_post_mono(*type_info, ctx0(), vx_context, vx_r); } vx_r }", kind="ghost-name", why="the context and the result get names for the proof hint (monotonicity in the context); same call"),
+        ]),
+        Raw("#[verifier::external_type_specification] #[verifier::external_body] pub struct ExTypeSpecifier(TypeSpecifier);\n" + node_specs("TypeAssertion", "n_ta", [("assertion_op", "TokenReference", "-"), ("cast_to", "TypeInfo", "ref")])
+            + node_specs("TypeSpecifier", "n_ts", [("punctuation", "TokenReference", "-"), ("type_info", "TypeInfo", "ref")]) + """
+pub assume_specification [TypeAssertion::new] (cast_to: TypeInfo) -> (r: TypeAssertion) ensures n_ta_cast_to(&r) == cast_to;
+""", module="formatters::luau"),
+        Fn(LU, "format_type_assertion", contract="ensures type_post(n_ta_cast_to(type_assertion), ctx0(), n_ta_cast_to(&r)), //# C02.luau_entry_points"),
+        Fn(LU, "format_type_assertion_on_new_line", contract="ensures type_post(n_ta_cast_to(type_assertion), ctx0(), n_ta_cast_to(&r)), //# C02.luau_entry_points"),
+        Fn(LU, "format_type_specifier", contract="ensures type_post(n_ts_type_info(type_specifier), ctx0(), n_ts_type_info(&r)), //# C02.luau_entry_points"),
     ]
 
 LABELS = {
+    "C02.luau_entry_points": dict(props=["C02"], text="format_type_info, format_hangable_type_info(_internal), format_type_assertion(_on_new_line), format_type_specifier: the type they are given is formatted for the empty context (TypeInfoContext::new is all-false), hung or not, so what format_type_info_internal / hang_type_info guarantee holds for the cast / annotation they return"),
     "C02.luau_type_members_keep_parentheses": dict(props=["C02"], text="format_type_info_internal: `(T)` loses its parentheses only where keep_parentheses(T, context) says they are not needed; the members of a union / intersection, the base of an optional and the type of a variadic are formatted for the context that carries the matching mark"),
     "C02.luau_type_loop": dict(props=["C02"], text="format_type_info_internal, union / intersection loops: the members pushed so far correspond one to one to the input's, each formatted for the marked context"),
     "C02.luau_hang_members_keep_parentheses": dict(props=["C02"], text="hang_type_info: every member `(T)` of a hung union / intersection whose parentheses are needed under the union (intersection) mark is formatted for a context that carries the mark, so it comes back in parentheses; same number of members"),
@@ -216,6 +268,6 @@ LABELS = {
     "C02.luau_type_parentheses_kept": dict(props=["C02"], text="keep_parentheses: parentheses around a single Luau type are kept wherever the grammar reads the type differently without them (function type before `?` / `|` / `&`, union under `?` / `...` / `&`, optional under `&`, intersection under `?` / `...` / `|`, any generic argument)"),
 }
 
-HEADER_LUAU = HEADER + "use full_moon::ast::luau::{TypeInfo, TypeUnion, TypeIntersection};\nuse full_moon::ast::punctuated::Pair;\n"
+HEADER_LUAU = HEADER + "use full_moon::ast::luau::{TypeInfo, TypeUnion, TypeIntersection, TypeSpecifier};\nuse full_moon::ast::punctuated::Pair;\n"
 
 UNIT = Unit("luau", items() + [VERIF_MOD], LABELS, macros=[("src/formatters/general.rs", "fmt_symbol")], header=HEADER_LUAU, feature_sets=("all",))
